@@ -252,6 +252,17 @@ class PolarsSchemaBackend(BaseSchemaBackend):
             error_counts=error_counts,
         )
 
+    def can_drop_invalid_rows(self, error_handler: ErrorHandler) -> bool:
+        """Whether the collected errors can be repaired by dropping rows.
+
+        A check that raised an exception says nothing about rows, so its error
+        must be raised even if ``drop_invalid_rows=True``.
+        """
+        return not any(
+            err.reason_code == SchemaErrorReason.CHECK_ERROR
+            for err in error_handler.schema_errors
+        )
+
     def drop_invalid_rows(
         self,
         check_obj: pl.LazyFrame,
